@@ -489,7 +489,50 @@ def w_highlight(failure, tier):
     return dict(found=False, note='highlight: %d fragments over %d multi-byte documents x %d fragment sizes are all well-formed' % (n, len(docs), len(sizes)))
 
 
+# ---------------------------------------------------------------- U14 sort-plan fingerprint
+def w_plan_hash(failure, tier):
+    """a sort cursor taken under one plan and replayed under a plan that differs in the direction of one key must be rejected"""
+    docs = [{"_id": "d%d" % i, "body": "alpha " + "alpha " * (i % 3), "rank": i % 4, "w": (i * 7) % 5} for i in range(8)]
+    add = {"numeric_fields": [{"name": "rank", "i64": True, "fast": True, "stored": True}, {"name": "w", "i64": True, "fast": True, "stored": True}]}
+    plans = [
+        [("_score", "desc"), ("rank", "asc")], [("rank", "asc"), ("_score", "desc")], [("rank", "desc"), ("w", "asc")],
+        [("_score", "asc"), ("w", "desc"), ("rank", "asc")], [("w", "asc")], [("rank", "asc"), ("w", "asc"), ("_score", "desc")],
+    ]
+    def sort(p):
+        return [{"field": f, "order": o} for (f, o) in p]
+    first = [dict(REQ_BASE, query="alpha", limit=2, sort=sort(p)) for p in plans]
+    out, err = drive_search({"schema": None, "schema_add": add, "batches": [docs[:4], docs[4:]], "requests": first})
+    if out is None:
+        return dict(found=False, note='search driver failed: %s' % err)
+    reqs = []
+    meta = []
+    for p, o in zip(plans, out):
+        cur = (o.get('ok') or {}).get('next_cursor')
+        if not cur:
+            continue
+        for i in range(len(p)):
+            q = list(p)
+            q[i] = (p[i][0], 'asc' if p[i][1] == 'desc' else 'desc')
+            if len(q) == 1 and q[0][0] == '_score':
+                continue
+            reqs.append(dict(REQ_BASE, query="alpha", limit=2, sort=sort(q), cursor=cur))
+            meta.append((p, q))
+    if not reqs:
+        return dict(found=False, note='no cursors produced')
+    out2, err = drive_search({"schema": None, "schema_add": add, "batches": [docs[:4], docs[4:]], "requests": reqs})
+    if out2 is None:
+        return dict(found=False, note='search driver failed: %s' % err)
+    for (p, q), o in zip(meta, out2):
+        if 'err' not in o:
+            return dict(found=True, cmd='%s search <<< hex(json)' % BIN,
+                        input='8 documents in 2 segments; page 1 with sort %s, its next_cursor replayed with sort %s' % (p, q),
+                        observed=('PANIC ' + o['panic']) if 'panic' in o else 'the cursor was ACCEPTED and a page returned: %s' % [h['doc_id'] for h in o['ok']['hits']],
+                        expected='an error: a cursor presented to a different sort order is rejected')
+    return dict(found=False, note='sort-plan fingerprint: %d cursors replayed against plans differing in one direction, all rejected' % len(reqs))
+
+
 GENERATORS = {
+    ('U14', 'compute_hash'): w_plan_hash,
     ('U6', 'frag_loop'): w_highlight,
     ('U9', 'decode_hex'): w_cursor,
     ('U9', 'hex_decode'): w_cursor,
